@@ -196,7 +196,7 @@ Section Outer.
             | [] =>
                 let cdef :=
                   if ob_from_ident b
-                  then map_ok Some (interp_fn "from_ident" (VStr (match ident with Some s => s | None => "" end)))
+                  then map_ok Some (interp_fn ("from_ident:" ++ ci_name (ob_c b)) (VStr (match ident with Some s => s | None => "" end)))
                   else cdefault_value interp_fn (ob_c b) self_ty ident in
                 match cdef with
                 | Ok cd =>
